@@ -621,7 +621,7 @@ func hllCase(c *Ctx, m uint64, redis bool) {
 
 func hllMismatch(c *Ctx) {
 	for _, redis := range []bool{false, true} {
-		for _, mm := range [][2]uint64{{128, 256}, {256, 128}, {128, 4096}} {
+		for mi, mm := range [][2]uint64{{128, 256}, {256, 128}, {128, 4096}, {256, 128}, {128, 256}, {256, 128}, {128, 256}} {
 			A, e1 := newHLL(mm[0], redis)
 			B, e2 := newHLL(mm[1], redis)
 			if e1 != nil || e2 != nil {
@@ -630,6 +630,10 @@ func hllMismatch(c *Ctx) {
 			c.rep.Cases++
 			// receiver / argument empty or not: a rejected merge never depends on the contents
 			fillA, fillB := c.rng.Intn(2) == 0, c.rng.Intn(3) != 0
+			if mi >= 3 {
+				// all four combinations, whatever the seed draws above
+				fillA, fillB = (mi-3)&1 == 1, (mi-3)&2 == 2
+			}
 			if fillA {
 				A.Update([]byte("x"))
 			}
